@@ -113,7 +113,7 @@ Proof. apply rfp_fields_none. apply Forall_forall. intros f _ t rp. apply rf_pro
 
 (* the result tree of a request: the root fields *)
 Definition ref_root_fields (s : schema) (d : rdoc) (vars : jmap) (root : str) (w : world) : list (str * ty * rtree) :=
-  rf_selset (rf_fuel_for d)
+  rf_selset (rf_fuel_for s d)
     {| rf_s := s; rf_frags := rd_frags d; rf_vars := vars; rf_w := w; rf_cx := ex_cx_for s d vars |} root 0 (rd_sels d).
 
 Lemma ref_data_null_iff s d vars root w r :
